@@ -321,20 +321,24 @@ theorem faulty_burn_rejected (s : State) (sender receiver denom : String) (amoun
 
 /-- **C10(6)** an accepted fee-token swap burns `b ≤ offered` from the sender — the rest, the
 dust, stays with the sender — and mints `m` to the recipient, where `(b, m)` is what
-`LossLessSwap` returns for the registered ratio and the two tokens' scales -/
+`LossLessSwap` returns for the registered ratio and the two tokens' scales, and `m` is worth at
+most `b` at that ratio -/
 theorem swap_fee_exact (s s' : State) (sender rcv denom : String) (amount : Int) (hsound : Sound s.bank)
     (hs : step s (.swapFee sender rcv denom amount) = .ok s') :
     ∃ tb target ratio tm b m, tokenByMinUnit s denom = some tb ∧
       AMap.get? s.env.registry tb.minUnit = some (target, ratio) ∧ getToken s target = some tm ∧
-      lossLess amount ratio tb.scale tm.scale = some (b, m) ∧ 0 ≤ b ∧ 0 ≤ m ∧
+      lossLess amount ratio tb.scale tm.scale = some (b, m) ∧ 0 ≤ b ∧ b ≤ amount ∧ 0 ≤ m ∧
+      fullValue b m ratio.raw tb.scale tm.scale ∧
       (tb.minUnit ≠ target →
         balOf s' sender tb.minUnit + b.toNat = balOf s sender tb.minUnit ∧
         supplyOf s' tb.minUnit + b.toNat = supplyOf s tb.minUnit ∧
         supplyOf s' target = supplyOf s target + m.toNat ∧
         balOf s' (rcptOf sender rcv) target = balOf s (rcptOf sender rcv) target + m.toNat) := by
-  obtain ⟨_, tb, target, ratio, tm, b, m, htb, hreg, htm, hll, h2⟩ := swapFee_ok hs
+  obtain ⟨hpos, tb, target, ratio, tm, b, m, htb, hreg, htm, hll, h2⟩ := swapFee_ok hs
   obtain ⟨hb0, hm0, _, bk, hb, rfl⟩ := swapMoves_ok h2
-  refine ⟨tb, target, ratio, tm, b, m, htb, hreg, htm, hll, hb0, hm0, ?_⟩
+  refine ⟨tb, target, ratio, tm, b, m, htb, hreg, htm, hll, hb0,
+    (burned_le_offered amount ratio _ _ b m (Int.le_of_lt hpos) hll).2, hm0,
+    minted_le_burned_value amount ratio _ _ b m hll, ?_⟩
   intro hne
   obtain ⟨e1, e2, _, e4, e5⟩ := burn_ok hb
   have e3 := burn_supply_exact hsound hb
